@@ -340,7 +340,7 @@ pub fn run(ctx: &Ctx) -> i32 {
         property: "C03",
         tier,
         seed: ctx.seed,
-        scenarios: tier.pick(1_500, 60_000),
+        scenarios: tier.pick(12_000, 300_000),
         threads: super::threads(),
         watchdog: Duration::from_secs(120),
         budget: Duration::from_secs(tier.pick(90, 900)),
